@@ -510,6 +510,22 @@ fn max_delta_depth(bundle: &gix_pack::Bundle) -> Result<(u32, usize), String> {
     Ok((max, ndeltas))
 }
 
+/// Header classes with their own signature (decided by the `header-fields` sub-check).
+fn known_header_class(stream: &[u8]) -> Option<&'static str> {
+    if stream.len() < 12 || &stream[..4] != b"PACK" {
+        return None;
+    }
+    let version = u32::from_be_bytes([stream[4], stream[5], stream[6], stream[7]]);
+    let count = u32::from_be_bytes([stream[8], stream[9], stream[10], stream[11]]);
+    if version == 3 {
+        Some("pack-version-3")
+    } else if version == 2 && count == 0 && stream.len() > 32 {
+        Some("zero-object-count")
+    } else {
+        None
+    }
+}
+
 const THREAD_LIMITS: [usize; 6] = [1, 2, 3, 4, 8, 16];
 
 // ------------------------------------------------------------------------------------------------ faults
@@ -916,6 +932,11 @@ pub fn main() {
             if bad == *pack {
                 continue;
             }
+            if known_header_class(&bad).is_some() {
+                // these two header classes are decided by the `header-fields` sub-check (known findings there)
+                c.label("excluded-known-header-class");
+                continue;
+            }
             c.label(label);
             let behind_header = match fault {
                 Fault::Truncate(n) => *n > 12,
@@ -951,6 +972,74 @@ pub fn main() {
                     );
                     c.label("git-accepts-faulted-stream");
                 }
+            }
+        }
+    });
+
+    // ---------------------------------------------------------------------------------------------------------------
+    // One fault in the 12-byte header of a small complete pack per case (the fault is decoded first, so a pinned case
+    // is a two-byte tape).
+    ck.sub("header-fields", SubCfg::new(96, 2_400).max_len(700).max_shrink(30).threads(4).isolated(600_000, false), |t, c| {
+        let (what, a, b) = (t.weighted(&[3, 3, 4]), t.u8(), t.u8());
+        let threads = *t.pick(&THREAD_LIMITS);
+        let with_lookup = t.bool();
+        let mut rng = Rng(t.u64() | 1);
+        let spec = PackSpec {
+            ncommits: t.range(1, 3),
+            base: 0,
+            thin: false,
+            ofs: true,
+            depth: t.range(0, 10),
+            window: t.range(0, 10),
+            compression: "",
+            receiver_packed: false,
+        };
+        let hist = gen_history(t, &mut rng, spec.ncommits);
+        let w = infra!(c, build_world(&spec, &hist), "build world");
+        let pack = &w.pack;
+        let n = u32::from_be_bytes([pack[8], pack[9], pack[10], pack[11]]);
+        let (fault, label) = match what {
+            0 => {
+                let v = [3u32, 0, 1, 4, 0x0200_0000, 0x0000_0102, 0x8000_0002, u32::MAX][(a as usize * 8) >> 8];
+                (Fault::Overwrite(4, v.to_be_bytes().to_vec()), "version-field")
+            }
+            1 => {
+                let v = [0u32, n.wrapping_sub(1), n + 1, n + 256, n.wrapping_mul(2), n | 0x0001_0000, n | 0x0100_0000, n | 0x4000_0000, n | 0x8000_0000, u32::MAX][(a as usize * 10) >> 8];
+                (Fault::Overwrite(8, v.to_be_bytes().to_vec()), "object-count-field")
+            }
+            _ => (Fault::Xor(vec![((a as usize * 12) >> 8, 1u8 << ((b as usize * 8) >> 8))]), "flip-header-bit"),
+        };
+        let bad = apply_fault(pack, &fault);
+        if bad == *pack {
+            c.discard();
+            return;
+        }
+        c.label(label);
+        c.key(&(&fault, threads, with_lookup, &hist.chunks));
+        c.nontrivial(true);
+        c.sample_with(|| format!("{label} {fault:?} on a pack of {n} objects / {} bytes, thread_limit {threads}, lookup {with_lookup}", pack.len()));
+        let dir = w.world.scratch.join("fault");
+        infra!(c, std::fs::create_dir_all(&dir), "mkdir");
+        let res = infra!(c, write_pack(&bad, &dir, with_lookup.then_some(w.receiver_objects.as_path()), threads), "open lookup odb");
+        let left = list_recursive(&dir);
+        match res {
+            Err(_) => ensure_sig!(c, "rejected-but-files-left", left.is_empty(), "{label} {fault:?} was rejected but the directory holds {left:?}"),
+            Ok(outcome) => {
+                let gdir = w.world.scratch.join("gfault");
+                infra!(c, std::fs::create_dir_all(gdir.join("pack")), "mkdir");
+                let g = w.receiver.clone().env("GIT_OBJECT_DIRECTORY", gdir.to_str().unwrap_or(""));
+                let (git_ok, _o, e) = infra!(c, g.try_run(["index-pack", "--stdin"], Some(&bad)), "git index-pack on the faulted stream");
+                let sig = if known_header_class(&bad) == Some("zero-object-count") { "zero-object-count-accepted" } else { "corrupt-stream-accepted" };
+                ensure_sig!(
+                    c,
+                    sig,
+                    git_ok,
+                    "{label} {fault:?} (thread_limit {threads}, lookup {with_lookup}) of a {} byte stream with {n} objects was accepted ({:?}, files {left:?}); git index-pack rejects these bytes: {}",
+                    pack.len(),
+                    outcome.index,
+                    String::from_utf8_lossy(&e).trim()
+                );
+                c.label("git-accepts-faulted-stream");
             }
         }
     });
